@@ -1169,6 +1169,53 @@ func ruleC30(c *Ctx, r *Report) {
 		if nt == 0 {
 			r.undecided(rule, name, "accept:true-return", c.Pos(fn.Pos()), "no accepting return found")
 		}
+		// every candidate is tested: in the clear-text checks no iteration skips the comparison (CheckHashPassword may skip
+		// entries that are not stored hashes: '*' + 40 hex digits)
+		if sp.calc != nil && len(tests) > 0 {
+			skipped := false
+			for _, t := range tests {
+				// loop header = the block that decides iteration; find a path from a body entry back to the header that
+				// does not pass the test: start at every successor of the header that leads into the loop
+				var header *ssa.BasicBlock
+				for _, b := range fn.Blocks {
+					if !b.Dominates(t.Block()) {
+						continue
+					}
+					isHeader := false
+					for _, pr := range b.Preds {
+						if b.Dominates(pr) { // back edge pr -> b
+							isHeader = true
+						}
+					}
+					if isHeader && (header == nil || header.Dominates(b)) {
+						header = b
+					}
+				}
+				if header == nil {
+					continue
+				}
+				for _, succ := range header.Succs {
+					if !blockReachable(succ, header) && succ != header {
+						continue
+					}
+					searchExits(fn, nil, succ, SearchOpts{
+						Stop: func(in ssa.Instruction) bool { return in == ssa.Instruction(t) },
+						EdgeOK: func(b *ssa.BasicBlock, i int) bool {
+							if b.Succs[i] == header {
+								skipped = true
+								return false
+							}
+							return true
+						},
+					})
+				}
+			}
+			if skipped {
+				r.viol(rule, name, "accept:every-candidate-tested", c.Pos(fn.Pos()), "an iteration over users[user] can move on to the next candidate without comparing the response with this candidate's scramble: a correct proof of a skipped password is rejected")
+			} else {
+				r.ok(rule, name, "accept:every-candidate-tested", c.Pos(fn.Pos()), "every candidate of users[user] is compared")
+			}
+		}
 		// a rejection is answered only after every candidate of users[user] was tried: each `return false` is dominated
 		// by the exit edge of the loop over the candidates
 		var exitEdges []CondEdge
@@ -1958,6 +2005,33 @@ func ruleC15(c *Ctx, r *Report) {
 						if call, ok := stripValue(a).(*ssa.Call); ok {
 							if g := staticCallee(&call.Call); g != nil && fSessVars != nil && readsField(g, fSessVars, 2, c) {
 								okMode = true
+								// the detection must not fail open: the SET was handed to the backend as text, so "I could
+								// not parse the mode list" is no reason to assume the default lexing
+								failOpen := false
+								for _, ret := range returnsOf(g) {
+									if len(ret.Results) != 1 {
+										continue
+									}
+									if b, ok := constBool(ret.Results[0]); !ok || b {
+										continue
+									}
+									allInstrs(g, func(in ssa.Instruction) {
+										pc, ok := in.(*ssa.Call)
+										if !ok || errResultOf(pc) == nil {
+											return
+										}
+										for _, e := range errNilEdgesOfCall(pc) {
+											if !e.Val && instrDominatedByEdge(ret, e) {
+												failOpen = true
+											}
+										}
+									})
+								}
+								if failOpen {
+									r.viol(rule, c.FuncName(g), "mode:no-fail-open", c.Pos(g.Pos()), "the sql_mode detection answers `backslashes escape` when it cannot parse the mode list (an unknown mode name, an expression): the SET itself was passed to the backend as text, so the backend may run NO_BACKSLASH_ESCAPES while the proxy escapes with backslashes")
+								} else {
+									r.ok(rule, c.FuncName(g), "mode:no-fail-open", c.Pos(g.Pos()), "no `false` answer on the error edge of a parse")
+								}
 							}
 						}
 					}
@@ -2603,6 +2677,48 @@ func ruleC13(c *Ctx, r *Report) {
 			if cls != "" {
 				rclass[k] = cls
 			}
+		}
+	}
+	// the NULL bitmap is per row: the slice whose bits are set for NULL columns is made inside the loop over the rows
+	if bb := c.Func("mysql", "BuildBinaryResultset"); bb != nil {
+		bname := c.FuncName(bb)
+		nb := 0
+		allInstrs(bb, func(in ssa.Instruction) {
+			st, ok := in.(*ssa.Store)
+			if !ok {
+				return
+			}
+			ia, ok := st.Addr.(*ssa.IndexAddr)
+			if !ok {
+				return
+			}
+			b, ok := st.Val.(*ssa.BinOp)
+			if !ok || b.Op != token.OR {
+				return
+			}
+			nb++
+			fresh := true
+			for _, l := range phiLeaves(ia.X) {
+				mk, ok := l.(*ssa.MakeSlice)
+				if !ok {
+					fresh = false
+					continue
+				}
+				// made inside the loop that contains the store: some block dominating the store can be reached again from
+				// the store, and the allocation lies in that cycle too
+				inLoop := blockReachable(st.Block(), mk.Block()) && blockReachable(mk.Block(), st.Block())
+				if !inLoop {
+					fresh = false
+				}
+			}
+			if fresh {
+				r.ok(rule, bname, "bitmap:fresh-per-row", c.Pos(st.Pos()), "the NULL bitmap is allocated inside the row loop")
+			} else {
+				r.viol(rule, bname, "bitmap:fresh-per-row", c.Pos(st.Pos()), "the NULL bitmap is allocated once for all rows and never cleared: a column that was NULL in an earlier row is flagged NULL in later rows while its value bytes are still appended")
+			}
+		})
+		if nb == 0 {
+			r.undecided(rule, bname, "bitmap:fresh-per-row", c.Pos(bb.Pos()), "no NULL-bit store found")
 		}
 	}
 	if len(wclass) < 10 || len(rclass) < 10 {
